@@ -146,11 +146,23 @@ def run(ctx):
         if mode == 'onehot' and any(abs(c - 1) > 1e-9 for c in conf):
             ctx.violation('onehot', 'one-hot posteriors do not give confidence 1', inp, conf)
         # shift invariance (dense log-probs path and raw-logit consumers)
-        shift = np.array([rng.uniform(-30, 30) for _ in range(T)])[:, None]
+        # per-frame constants of ordinary and of extreme magnitude (frames hundreds of units apart: exp() of a difference to a
+        # GLOBAL maximum underflows; the normalisation has to be stabilised per frame), float64 and the engine's float32
+        big = rng.random() < 0.4
+        shift = np.array([(rng.choice([-800.0, -150.0, 0.0, 150.0, 800.0]) if big else 0.0) + rng.uniform(-30, 30) for _ in range(T)])[:, None]
         dense = line.get_dense_logits()
         lp2 = log_softmax(dense + shift)
-        if np.abs(lp2 - lp).max() > 1e-9:
-            ctx.violation('shift:log_softmax', 'log-probabilities change when a constant is added to a frame', inp)
+        if not np.all(np.abs(lp2 - lp) <= 1e-9):
+            ctx.violation('shift:log_softmax' + (':extreme' if big else ''), 'log-probabilities change when a constant is added to a frame',
+                          dict(inp, shift=[float(x) for x in shift[:, 0]]))
+        shift32 = np.array([rng.choice([-150.0, 0.0, 0.0, 120.0]) for _ in range(T)], dtype=np.float32)[:, None]
+        d32 = dense.astype(np.float32)
+        lp32a, lp32b = log_softmax(d32), log_softmax(d32 + shift32)
+        if not np.all(np.abs(lp32a.astype(np.float64) - lp32b.astype(np.float64)) <= 2e-3 * (1 + np.abs(lp32a.astype(np.float64)))):
+            ctx.violation('shift:log_softmax:float32', 'float32 log-probabilities change when a constant is added to a frame',
+                          dict(inp, shift=[float(x) for x in shift32[:, 0]]))
+        if big:
+            ctx.count('extreme_shift_cases')
         if mode != 'transformer':
             conf2 = [float(x) for x in ce.get_line_confidence(line, np.array(labels), al, lp2)]
             if max(abs(a - b) for a, b in zip(conf, conf2)) > 1e-9:
